@@ -113,6 +113,10 @@ fn main() {
             }
             std::process::exit(0);
         }
+        "c08-filtered" => {
+            props::c08::filtered_child_main(&args[2..]);
+            std::process::exit(0);
+        }
         "selftest" => {
             let mut ok = true;
             let mut tests = refimpl::selftests();
